@@ -195,7 +195,20 @@ def replay64 (seen : List Nat) (seq : Nat) : Bool :=
 def judgeFramesD (ct ot : List String) : Option Verdict := do
   let hv := (kv ct "hv").getD "0" == "1"
   let dg := (kv ct "dgrams").getD "-"
-  let dgrams ← if dg == "-" then some [] else (dg.splitOn "/").mapM Hex.decode
+  let listed ← if dg == "-" then some [] else (dg.splitOn "/").mapM Hex.decode
+  -- `flood=<n>x<size>`: n more datagrams, each one handshake record (epoch 0, record sequence
+  -- numbers 1000, 1001, ..) of `size` zero bytes
+  let flood : List Bytes := match ((kv ct "flood").getD "").splitOn "x" |>.map String.toNat? with
+    | [some n, some size] =>
+      if n ≤ 4096 ∧ size ≤ 16384 then
+        let body : Bytes := List.replicate size 0
+        (List.range n).map (fun i =>
+          let q := 1000 + i
+          ([22, 1, 1, 0, 0, 0, 0, UInt8.ofNat (q / 16777216), UInt8.ofNat (q / 65536), UInt8.ofNat (q / 256), UInt8.ofNat q,
+            UInt8.ofNat (size / 256), UInt8.ofNat size] : Bytes) ++ body)
+      else []
+    | _ => []
+  let dgrams := listed ++ flood
   let ops := ((kv ct "ops").getD "").splitOn ","
   let obsSteps := ((kv ot "steps").getD "").splitOn ","
   let L := limitsD
@@ -246,11 +259,15 @@ def judgeLive (ct ot : List String) : Option Verdict := do
   -- floods of non-advancing records: the limit is documented for every such record on the stream
   -- stack (each costs a recursion) and for warning alerts on the datagram stack (empty records
   -- are dropped there by the loop itself)
+  -- A handshake record that arrives after the handshake neither advances anything nor delivers
+  -- data (there is no renegotiation); on the stream stack an ignored one is a non-advancing
+  -- record like the others.  (On the datagram stack such records are retransmissions of the
+  -- peer's last flight and are dropped by the loop itself.)
   let fn := (kv ct "fn").getD ""
   let kind := (kv ct "kind").getD ""
   let stack := (kv ct "stack").getD ""
   let useless : Nat :=
-    if fn == "live_flood" && ((stack == "tlcp" && (kind == "warn" || kind == "empty" || kind == "mix")) || (stack == "dtlcp" && kind == "warn"))
+    if fn == "live_flood" && ((stack == "tlcp" && (kind == "warn" || kind == "empty" || kind == "mix" || kind == "hs")) || (stack == "dtlcp" && kind == "warn"))
     then ((kv ct "n").bind String.toNat?).getD 0 else 0
   let obs : Robust.Obs := { cls := cls, stalled := (kv ot "stalled").getD "0" == "1", hand := n "hand", raw := n "raw",
                             pending := n "pend", pendingBytes := n "pendb", hsCalls := max 1 (n "hs"),
